@@ -48,6 +48,7 @@ import (
 	"github.com/sassoftware/relic/v8/signers"
 	"github.com/sassoftware/relic/v8/zzverif/bridge"
 
+	"verif/gen/zpkggen"
 	"verif/mc"
 	"verif/relicx"
 	"verif/vlib"
@@ -97,7 +98,15 @@ func streams() []stream {
 	small := filepath.Join(scratch, "edge.apk")
 	mkAPK(small, 1048576-300) // first chunk boundary inside the last member
 	pk := relicx.Packages
+	// an appx whose members are incompressible and a multiple of the inflater's
+	// window long (one of them empty): the deflate streams end in an empty final
+	// block that only a reader going to the end of the stream consumes
+	noisy := filepath.Join(scratch, "noisy.appx")
+	if err := os.WriteFile(noisy, zpkggen.BuildAppx(zpkggen.AppxSpec{Sizes: []int{32768, 0, 131072}, Mode: "deflate", Names: "ext", Noise: true}), 0o644); err != nil {
+		panic(err)
+	}
 	return []stream{
+		{Name: "appx-incompressible-members", SigType: "appx", File: noisy, Hash: crypto.SHA256},
 		{Name: "apk-2.1MiB-stored", SigType: "apk", File: apk, Hash: crypto.SHA256},
 		{Name: "apk-around-1MiB", SigType: "apk", File: small, Hash: crypto.SHA256},
 		{Name: "appx-300KiB", SigType: "appx", File: filepath.Join(pk, "App1_1.0.3.0_x64.appx"), Hash: crypto.SHA256},
@@ -223,14 +232,32 @@ func mustFlags(mod *signers.Signer, v url.Values) *signers.FlagValues {
 	return f
 }
 
-// uploadBytes materialises the client-side transform stream n times.
-func uploadBytes(s stream, n int) ([][]byte, error) {
+// uploadBytes materialises the client-side transform stream n times. With
+// fromPipe the input arrives the way `-f -` delivers it: an *os.File that is a
+// pipe (not seekable), fed by a writer that closes it at the end.
+func uploadBytes(s stream, n int, fromPipe bool) ([][]byte, error) {
 	mod := signers.ByName(s.SigType)
 	f, err := os.Open(s.File)
 	if err != nil {
 		return nil, err
 	}
 	defer f.Close()
+	if fromPipe {
+		content, err := io.ReadAll(f)
+		if err != nil {
+			return nil, err
+		}
+		pr, pw, err := os.Pipe()
+		if err != nil {
+			return nil, err
+		}
+		go func() {
+			pw.Write(content)
+			pw.Close()
+		}()
+		defer pr.Close()
+		f = pr
+	}
 	opts := signers.SignOpts{Path: s.File, Hash: s.Hash, Flags: mustFlags(mod, s.Flags)}
 	tr, err := mod.GetTransform(f, opts)
 	if err != nil {
@@ -254,8 +281,23 @@ func uploadBytes(s stream, n int) ([][]byte, error) {
 func rereadPhase(ss []stream) map[string][]byte {
 	uploads := map[string][]byte{}
 	for _, s := range ss {
-		bs, err := uploadBytes(s, 3)
+		bs, err := uploadBytes(s, 3, false)
 		run.Eval(1)
+		// the same input arriving on a pipe: a signer may refuse it, but if it
+		// hands out a stream it must hand out the same one every time
+		if pb, perr := uploadBytes(s, 3, true); perr != nil {
+			run.Outcome("reread:pipe-input-refused")
+		} else {
+			run.Eval(1)
+			run.Distinct("reread-pipe|" + s.Name)
+			for i := range pb {
+				if err == nil && !bytes.Equal(pb[i], bs[0]) {
+					run.Violation("reread:pipe-input-stream-differs-on-read-"+fmt.Sprint(i+1)+":"+s.SigType, fmt.Sprintf("%s, input on a pipe: read %d gives %d bytes (sha256 %x), the same input as a file gives %d bytes (sha256 %x)", s.Name, i+1, len(pb[i]), sha256.Sum256(pb[i]), len(bs[0]), sha256.Sum256(bs[0])), s.Name)
+					break
+				}
+			}
+			run.Outcome("reread:pipe-input-identical")
+		}
 		if err != nil {
 			run.Violation("reread:transform-fails:"+s.Name, err.Error(), s.Name)
 			continue
